@@ -1,9 +1,49 @@
 (* C11/Properties.v — property C11: SCALE encoding round-trips and is canonical.
-   Only statements, each closed by `exact <lemma>`, with Print Assumptions beneath. *)
+   Only statements, each closed by `exact <lemma>`, with Print Assumptions beneath.
+
+   Universe: Scale/Types.v (ty, value, has_type, wf_ty); specification: Scale/Spec.v (spec_encode,
+   written from the SCALE specification); model of pkg/scale: Scale/Codec.v (encode, decode at a
+   cfg: [current] = the tree with the proposed fixes, [ideal] = the two findings repaired too).
+   The model's [encode] lists the entries of a map in ascending key order; Go's encodeMap emits
+   them in map iteration order, so for values with a multi-entry map (multi_map v = true) the
+   theorems speak of one of the orders Marshal can produce (finding map-order). *)
 From Common Require Import Bytes Outcome.
-From Scale Require Import Compact CompactProofs Types Spec Codec FieldOrder.
+From Scale Require Import Compact CompactProofs Types Spec Codec FieldOrder EncodeProofs RoundTrip.
 From C11 Require Import Model Proofs.
 Local Open Scope N_scope.
+
+(* canonicity: on every well-typed value of every shape the encoder's bytes are the
+   canonical SCALE encoding *)
+Theorem C11_canonical : forall t v, has_type v t = true -> encode t v = spec_encode t v.
+Proof. exact encode_canonical. Qed.
+Print Assumptions C11_canonical.
+
+(* round trip on the current tree: every well-typed value of every well-formed shape, followed by
+   arbitrary bytes r, decodes to itself and leaves r — outside the guard of finding uint-5to7 *)
+Theorem C11_roundtrip_partial : forall t v r,
+  wf_ty t = true -> has_type v t = true -> has_uint57 t v = false ->
+  decode_res current t (encode t v ++ r) = Ok (v, r).
+Proof. exact roundtrip_current. Qed.
+Print Assumptions C11_roundtrip_partial.
+
+(* the full statement holds once decodeUint takes the 5..7-byte mode (cfg ideal) *)
+Theorem C11_roundtrip_ideal : forall t v r,
+  wf_ty t = true -> has_type v t = true ->
+  decode_res ideal t (encode t v ++ r) = Ok (v, r).
+Proof. exact roundtrip_ideal. Qed.
+Print Assumptions C11_roundtrip_ideal.
+
+(* finding uint-5to7: on the current tree a Go uint in [2^32, 2^56) does not round-trip *)
+Theorem C11_roundtrip_refuted : exists t v,
+  wf_ty t = true /\ has_type v t = true /\ decode_res current t (encode t v) <> Ok (v, []).
+Proof. exact roundtrip_refuted. Qed.
+Print Assumptions C11_roundtrip_refuted.
+
+(* the pinned encoder (before fixes/C11-nil-option.patch) panics on a nil option of an enum *)
+Theorem C11_encode_prefix_refuted : exists t v,
+  wf_ty t = true /\ has_type v t = true /\ encode_prefix t v = Panic.
+Proof. exact encode_prefix_refuted. Qed.
+Print Assumptions C11_encode_prefix_refuted.
 
 (* compact integers: the spec decoder inverts the canonical encoder on the whole range, and
    accepts nothing but canonical encodings *)
@@ -17,11 +57,14 @@ Theorem C11_compact_canonical : forall bs n r,
 Proof. exact compact_encode_decode. Qed.
 Print Assumptions C11_compact_canonical.
 
-(* finding uint-5to7: on the current tree a Go uint between 2^32 and 2^56-1 does not round-trip *)
-Theorem C11_roundtrip_refuted : exists t v,
-  has_type v t = true /\ decode_res current t (encode t v) <> Ok (v, []).
-Proof.
-  exists TUint, (VN 4294967296). destruct uint57_witness as (H & _ & E & _).
-  split; [exact H|]. rewrite E. discriminate.
-Qed.
-Print Assumptions C11_roundtrip_refuted.
+(* non-vacuity: a nested value with every kind of component is well typed, is not excluded by a
+   guard, and its 33-byte encoding decodes back *)
+Example C11_nonvacuous :
+  let t := TStruct (TCons None (TSlice (TOption TUint)) (TCons None (TMap TU8 TBytes)
+            (TCons None (TResult TBig (TEnum (TCons (Some 3) TI16 TNil))) (TCons None TU128 TNil)))) in
+  let v := VList (VCons (VList (VCons (VSome (VN 1073741824)) (VCons VNone VNil)))
+            (VCons (VMap (KCons (VN 7) (VBytes [Byte.x01; Byte.x02]) KNil))
+            (VCons (VErr (VEnum 3 (VZ (-2)))) (VCons (VN (2 ^ 100)) VNil)))) in
+  wf_ty t = true /\ has_type v t = true /\ has_uint57 t v = false /\ multi_map v = false /\
+  length (encode t v) = 33%nat /\ decode_res current t (encode t v) = Ok (v, []).
+Proof. vm_compute. repeat split; reflexivity. Qed.
